@@ -76,7 +76,7 @@ def diag_solver(inst, inj):
     order = hermitian.block_order(inst)
     nb = len(inst["sizes"])
     offs = np.concatenate(([0], np.cumsum(inst["sizes"])))
-    E = np.array([float(inst["E"][i]) for i in order])
+    E = np.array([float(hermitian.epair(inst["E"][i])[0]) for i in order])
     eigs = [E[offs[b]:offs[b + 1]] for b in range(nb)]
 
     def solve(Y, index):
